@@ -515,6 +515,10 @@ def resolve_strategy_inline_source(path, base, local_diff, remote_diff):
     return decisions
 
 
+# Cell fields that resolve_strategy_inline_recurse can merge for similar inserts
+_inline_similar_keys = ('source', 'metadata', 'id', 'execution_count', 'outputs')
+
+
 def resolve_strategy_inline_recurse(path, base, decisions):
     strategy = "inline-cells"
 
@@ -533,7 +537,14 @@ def resolve_strategy_inline_recurse(path, base, decisions):
                 d.common_path != ('cells',)):
             decisions.decisions.append(d)
             continue
-        if d.get('similar_insert', None) is None:
+        similar_insert = d.get('similar_insert', None)
+        if similar_insert is not None and any(
+                e.key not in _inline_similar_keys
+                for e in similar_insert[0].diff):
+            # The similar cells differ in a field that cannot be
+            # merged inline (e.g. attachments), treat as non-similar
+            similar_insert = None
+        if similar_insert is None:
             # Inserts not similar, cannot recurse. Markup block
             cells = make_inline_cell_conflict(base, d.local_diff, d.remote_diff)
             rdiff = []
